@@ -22,6 +22,8 @@ pub struct ColumnValues {
     typed_f64: Option<(usize, usize, Option<(usize, usize)>)>,
     // Optional typed bool view: (payload_start for bitset, row_count, optional nulls bitset)
     typed_bool: Option<(usize, usize, Option<(usize, usize)>)>,
+    // Optional null bitmap (start, len) inside `block` for VarBytes (string) columns
+    var_nulls: Option<(usize, usize)>,
 }
 
 impl ColumnValues {
@@ -41,7 +43,20 @@ impl ColumnValues {
             typed_u64: None,
             typed_f64: None,
             typed_bool: None,
+            var_nulls: None,
         }
+    }
+
+    /// VarBytes (string) column whose NULL rows are marked in a bitmap stored in `block`
+    /// at `nulls = (start, len)`; see `is_null_at`.
+    pub fn new_with_nulls(
+        block: Arc<DecompressedBlock>,
+        ranges: Vec<(usize, usize)>,
+        nulls: Option<(usize, usize)>,
+    ) -> Self {
+        let mut values = Self::new(block, ranges);
+        values.var_nulls = nulls;
+        values
     }
 
     pub fn new_typed_i64(
@@ -59,6 +74,7 @@ impl ColumnValues {
             typed_u64: None,
             typed_f64: None,
             typed_bool: None,
+            var_nulls: None,
         }
     }
 
@@ -77,6 +93,7 @@ impl ColumnValues {
             typed_u64: Some((payload_start, row_count, nulls)),
             typed_f64: None,
             typed_bool: None,
+            var_nulls: None,
         }
     }
 
@@ -95,6 +112,7 @@ impl ColumnValues {
             typed_u64: None,
             typed_f64: Some((payload_start, row_count, nulls)),
             typed_bool: None,
+            var_nulls: None,
         }
     }
 
@@ -113,6 +131,7 @@ impl ColumnValues {
             typed_u64: None,
             typed_f64: None,
             typed_bool: Some((payload_start, row_count, nulls)),
+            var_nulls: None,
         }
     }
 
@@ -179,6 +198,20 @@ impl ColumnValues {
         let bytes = &self.block.bytes[start..start + len];
         // Values are UTF-8 encoded when written; if invalid, return None.
         std::str::from_utf8(bytes).ok()
+    }
+
+    /// True when this is a VarBytes (string) column and row `index` is marked NULL in
+    /// its null bitmap. `get_str_at` still yields "" for such a row (what filters and
+    /// aggregates have always seen); callers that materialize values use this to tell
+    /// a NULL from an empty string.
+    #[inline]
+    pub fn is_null_at(&self, index: usize) -> bool {
+        match self.var_nulls {
+            Some((ns, nl)) if index / 8 < nl => {
+                (self.block.bytes[ns + index / 8] & (1 << (index % 8))) != 0
+            }
+            _ => false,
+        }
     }
 
     /// Validates the entire column contains valid UTF-8; caches the result.
